@@ -328,6 +328,89 @@ def run_word(pname, keyA, keyB, word):
     return st
 
 
+class _Blocked(BaseException):
+    """the worker would block here for good (its wake-up flag is not set)"""
+
+
+class _FlagEvent(object):
+    def __init__(self):
+        self.flag = False
+
+    def set(self):
+        self.flag = True
+
+    def clear(self):
+        self.flag = False
+
+    def is_set(self):
+        return self.flag
+
+    def wait(self, timeout=None):
+        if not self.flag:
+            raise _Blocked()
+        return True
+
+
+class _HookQueue(list):
+    """the callback worker's queue: `del queue[:]` at the start of run() is suppressed once, and the moment the drain loop finds the
+    queue empty is the moment another thread hands over the next notification (the schedule a lost wake-up needs)"""
+    skip = 0
+    inject = None
+
+    def __delitem__(self, k):
+        if self.skip and isinstance(k, slice) and k == slice(None, None, None):
+            self.skip -= 1
+            return
+        list.__delitem__(self, k)
+
+    def __bool__(self):
+        r = len(self) > 0
+        if not r and self.inject:
+            f = self.inject.pop(0)
+            f()
+        return r
+
+
+def wakeup_check(ctx):
+    """The REAL ProcessThreadWorker.run against the schedule `a notification is queued right after the drain loop saw an empty queue`:
+    the worker must come round again and deliver it; it may only block (wait on a cleared flag) with an empty queue."""
+    from pyIRDecoder import ir_code
+    pw = ir_code._process_thread_worker
+    vlib.drain_workers()
+    delivered = []
+    saved = (pw.queue, pw.queue_event, pw.stop_event)
+    q = _HookQueue()
+    ev = _FlagEvent()
+    pw.queue, pw.queue_event, pw.stop_event = q, ev, type('Never', (), {'is_set': lambda self: False, 'set': lambda self: None,
+                                                                         'clear': lambda self: None})()
+    outcome = None
+    try:
+        q.skip = 1
+        pw.add(lambda: delivered.append('first'))
+        q.inject = [lambda: pw.add(lambda: delivered.append('queued while the worker was about to wait')),
+                    lambda: pw.add(lambda: delivered.append('and once more'))]
+        try:
+            pw.run()
+            outcome = 'run returned'
+        except _Blocked:
+            outcome = 'blocked'
+        except Exception as e:  # noqa
+            outcome = 'raised ' + type(e).__name__
+        left = len(q)
+    finally:
+        pw.queue, pw.queue_event, pw.stop_event = saved
+        vlib.drain_workers()
+    ctx.count_eval(key=('wakeup', outcome, tuple(delivered)))
+    ok = outcome == 'blocked' and left == 0 and len(delivered) == 3
+    ctx.obligation('fact: the callback worker delivers a notification queued while it was about to wait (no lost wake-up)', ok,
+                   None if ok else 'outcome=%s delivered=%r left in the queue=%d' % (outcome, delivered, left))
+    if not ok:
+        ctx.report('thread_worker.ProcessThreadWorker', 'notification queued while the worker was about to wait is never delivered',
+                   dict(outcome=outcome), dict(schedule='add() right after the drain loop found the queue empty', outcome=outcome,
+                                               delivered=delivered, left_in_queue=left))
+    return ok
+
+
 def run(ctx):
     vlib.import_repo()
     vlib.ensure_static_build()
@@ -336,7 +419,8 @@ def run(ctx):
     dof = disarm_fact()
     ctx.obligation('fact: Timer.run_func disarms the timer when it fires (hypothesis of timer_conservation)', dof,
                    None if dof else 'run_func leaves self.timer set after queuing the release')
-    ctx.extra['facts'] = dict(disarm_on_fire=dof)
+    wk = wakeup_check(ctx)
+    ctx.extra['facts'] = dict(disarm_on_fire=dof, no_lost_wakeup=wk)
     # ---- correspondence of the Timer model
     rng = ctx.rng
     words = [gen_timer_word(rng, rng.randint(1, 3), rng.randint(3, 10)) for _ in range(400 if ctx.tier == 'quick' else 6000)]
